@@ -24,6 +24,7 @@ func checkC06(c *Check, a *Anchors) {
 	c06HashSeesInputs(c, a)
 	c06OnceKey(c, a)
 	hashOptionsDefault(c, a)
+	c09MapRanges(c, a) // the when_changed key covers the compiled commands: an unordered loop in the compiler makes identical calls hash differently
 	compiledFromDefinition(c, a, "compiled-from-definition")
 }
 
